@@ -141,6 +141,11 @@ class Check:
                 self.ctx.small.append(cid)
             if inf["nsubs"] >= 2:
                 self.ctx.with_subs.append(cid)
+        for cid in ids:
+            t = self.index[cid].get("twin_of")
+            if t and t in self.ctx.contracts and cid in self.ctx.contracts:
+                self.ctx.twins.setdefault(t, []).append(cid)
+                self.ctx.twins.setdefault(cid, []).append(t)
         if need_sites:
             self.site_tables()
         self.group_configs()
